@@ -29,6 +29,8 @@ pub enum Status {
     InWait(u8, u8, bool),
     /// in a `while !cond { wait }` op: the condition was read as false, the wait call is next
     LoopDecided,
+    /// in `AwaitSpun`: a load has returned another value, the loop is spinning
+    Spun,
     /// the closure returned; thread-local destructors still to run
     Returned,
     Done,
@@ -328,6 +330,17 @@ impl St {
                 }
                 return out;
             }
+            Status::Spun => {
+                if let K::AwaitSpun { a, want, .. } = p.threads[t][th.pc].k {
+                    if self.atomics[a] == want {
+                        let mut s = self.clone();
+                        s.th[t].status = Status::Ready;
+                        s.finish_op(p, t, Res::V(1), m);
+                        out.push((s, Some(Res::V(1))));
+                    }
+                }
+                return out;
+            }
             Status::Ready => {}
         }
         let op = &p.threads[t][th.pc];
@@ -380,6 +393,19 @@ impl St {
             K::Await { a, want, .. } => {
                 if s.atomics[a] == want {
                     fin!(s, Res::V(want))
+                }
+            }
+            K::AwaitSpun { a, want, .. } => {
+                // the explorer spins only when the SC value is wrong; the acceptor also when it is
+                // right (the real loop may have read a stale value)
+                let holds = s.atomics[a] == want;
+                if !holds || m.any_waiter {
+                    let mut s2 = s.clone();
+                    s2.th[t].status = Status::Spun;
+                    out.push((s2, None));
+                }
+                if holds {
+                    fin!(s, Res::V(0))
                 }
             }
             K::CellRead { c } => {
